@@ -78,7 +78,7 @@ V = [
     ("vbc-resize-label", ["C10", "C17"], "VBC", "Fock.resize", [(S + "fock.py", "Fock.resize", "                    self.dimensions = new_dimensions\n                    return True\n            elif self.expansion_level is ExpansionLevel.Vector:", "                    self.dimensions = new_dimensions\n            elif self.expansion_level is ExpansionLevel.Vector:")]),
     ("book-order-swap", ["C13"], "BOOK-order", "CompositeEnvelope.measure", [(S + "composite_envelope.py", "CompositeEnvelope.measure", "        self._containers[self.uid].remove_empty_product_states()\n        self._containers[self.uid].update_all_indices()", "        self._containers[self.uid].update_all_indices()\n        self._containers[self.uid].remove_empty_product_states()")]),
     ("book-no-refresh-combine", ["C13"], "BOOK-order", "CompositeEnvelope.combine", [(S + "composite_envelope.py", "CompositeEnvelope.combine", "        self.container.update_all_indices()", "        pass")]),
-    ("book-merge-self", ["C13"], "BOOK-merge", "CompositeEnvelope.__init__", [(S + "composite_envelope.py", "CompositeEnvelope.__init__", "            elif CompositeEnvelope._containers[ce.uid] is not ce_container:", "            else:")]),
+    ("book-merge-self", ["C13"], "BOOK-merge", "CompositeEnvelope.__init__", [(S + "composite_envelope.py", "CompositeEnvelope.__init__", "            elif not any(container is merged for merged in merged_containers):", "            else:")]),
     ("book-evict-custom", ["C05", "C13"], "BOOK-evict", "ProductState.measure", [(S + "composite_envelope.py", "ProductState.measure", "                if destructive and not isinstance(state, CustomState):\n                    state._set_measured()\n                else:\n                    if isinstance(state, Polarization):\n                        if outcomes[state] == 0:\n                            state.state = PolarizationLabel.H\n                        else:\n                            state.state = PolarizationLabel.V\n                    else:\n                        state.state = outcomes[state]\n                    state.index = None\n                    state.expansion_level = ExpansionLevel.Label\n                self.state_objs.remove(state)", "                if destructive:\n                    state._set_measured()\n                else:\n                    if isinstance(state, Polarization):\n                        if outcomes[state] == 0:\n                            state.state = PolarizationLabel.H\n                        else:\n                            state.state = PolarizationLabel.V\n                    else:\n                        state.state = outcomes[state]\n                    state.index = None\n                    state.expansion_level = ExpansionLevel.Label\n                self.state_objs.remove(state)")]),
     ("book-evict-index-kept", ["C05", "C13"], "BOOK-evict", "ProductState.measure", [(S + "composite_envelope.py", "ProductState.measure", "                        state.state = outcomes[state]\n                    state.index = None\n                    state.expansion_level = ExpansionLevel.Label\n\n                # Remove the mesaured state from the product state", "                        state.state = outcomes[state]\n                    state.expansion_level = ExpansionLevel.Label\n\n                # Remove the mesaured state from the product state")]),
     ("book-own-registry-iteration", ["C13"], "BOOK-own", "CompositeEnvelope.update_composite_envelope_pointers", [(S + "composite_envelope.py", "CompositeEnvelope.update_composite_envelope_pointers", "        for envelope in self.envelopes:\n            envelope.set_composite_envelope_id(self.uid)", "        for c in CompositeEnvelope._containers.values():\n            for envelope in c.envelopes:\n                envelope.set_composite_envelope_id(self.uid)")]),
